@@ -393,6 +393,52 @@ class Executor:
             v = self.dom.zext(v, bits)
         return v
 
+    def mem_transfer(self, st, dobj_id, d0, sobj_id, s0, n, setval):
+        """concrete-range memcpy/memmove (sobj_id given) or memset (setval given)"""
+        if setval is not None:
+            for k in range(n):
+                self.store_conc(st, dobj_id, d0 + k, IntTy(8), setval)
+            return
+        sobj = st.mem[sobj_id]
+        if sobj.opaque or st.mem[dobj_id].opaque:
+            raise IRUnsupported("memcpy on an opaque object")
+        if s0 < 0 or s0 + n > sobj.size:
+            raise PathEnd("UB", "oob_memcpy_src")
+        if d0 < 0 or d0 + n > st.mem[dobj_id].size:
+            raise PathEnd("UB", "oob_memcpy_dst")
+        moved = []
+        covered = [False] * n
+        for coff, (csz, cv) in sobj.cells.items():
+            if coff >= s0 and coff + csz <= s0 + n:
+                moved.append((coff - s0, csz, cv))
+                for k in range(coff - s0, coff - s0 + csz):
+                    covered[k] = True
+        bs = None
+        if not all(covered):
+            bs = self.read_bytes(st, sobj, s0, n)
+        dobj = st.obj_w(dobj_id)
+        if dobj.const:
+            raise PathEnd("UB", "store_to_constant")
+        for coff in list(dobj.cells.keys()):
+            csz, cv = dobj.cells[coff]
+            if coff + csz <= d0 or coff >= d0 + n:
+                continue
+            if coff >= d0 and coff + csz <= d0 + n:
+                del dobj.cells[coff]
+            else:
+                cb = self.val_to_bytes(cv, csz)
+                del dobj.cells[coff]
+                for k in range(csz):
+                    pp = coff + k
+                    if pp < d0 or pp >= d0 + n:
+                        dobj.cells[pp] = (1, cb[k])
+        if bs is not None:
+            for k in range(n):
+                if not covered[k]:
+                    dobj.cells[d0 + k] = (1, bs[k])
+        for (ro, csz, cv) in moved:
+            dobj.cells[d0 + ro] = (csz, cv)
+
     def conc(self, iv):
         """try to make a symbolic IV concrete by simplification (e.g. (base+8)-(base+3))"""
         if not isinstance(iv, IV) or iv.c is not None:
@@ -573,10 +619,22 @@ class Executor:
             p.off = self.conc(p.off)
         if p.off.c is not None:
             return [(True, p.off.sc)]
-        if self.mode != "bv":
-            raise IntUnsupported("symbolic offset memory access")
         if obj.size > 4096:
             raise IRUnsupported("symbolic offset into a large object")
+        if obj.size <= 96:
+            # keep only the offsets the path condition allows (usually exactly one)
+            out = []
+            for k in range(0, obj.size - size + 1):
+                c = zb(self.dom.icmp("eq", p.off, IV(64, c=k)))
+                if self.feasible(st, c) is not False:
+                    out.append((c, k))
+            if len(out) == 1:
+                oob = z3.Not(out[0][0])
+                if self.feasible(st, oob) is False:
+                    return [(True, out[0][1])]
+            return out
+        if self.mode != "bv":
+            raise IntUnsupported("symbolic offset memory access into a large object")
         e = self.dom.E(p.off)
         return [(e == z3.BitVecVal(k, 64), k) for k in range(0, obj.size - size + 1)]
 
@@ -1376,6 +1434,10 @@ class Executor:
             return None
         if name in ("_ZSt9terminatev", "__clang_call_terminate"):
             raise PathEnd("TRAP", "terminate")
+        if name in ("isdigit",):
+            c = args[0]
+            inr = b_and(d.icmp("sge", c, IV(c.bits, c=48)), d.icmp("sle", c, IV(c.bits, c=57)))
+            return d.from_bool(inr, 32)
         if name == "strlen":
             s = self.cstring(st, args[0])
             if s is None:
@@ -1451,71 +1513,73 @@ class Executor:
             a = args[0]
             bs = d.to_bytes(a)
             return d.from_bytes(list(reversed(bs)), a.bits)
-        if n1 in ("memcpy", "memmove"):
-            dst, src, ln = args[0], args[1], self.conc(args[2])
-            dst = Ptr(dst.obj, self.conc(dst.off))
-            src = Ptr(src.obj, self.conc(src.off))
-            if ln.c is None:
-                raise IRUnsupported("memcpy with symbolic length")
+        if n1 in ("memcpy", "memmove", "memset"):
+            is_set = n1 == "memset"
+            dst = Ptr(args[0].obj, self.conc(args[0].off))
+            ln = self.conc(args[2])
+            if is_set:
+                src = None
+                val = args[1]
+            else:
+                src = Ptr(args[1].obj, self.conc(args[1].off))
             if ln.c == 0:
                 return None
-            if dst.off.c is None or src.off.c is None:
-                raise IRUnsupported("memcpy with symbolic offset")
-            if dst.obj is None or src.obj is None:
-                raise PathEnd("UB", "null_memcpy")
-            sobj = st.mem[src.obj]
-            if src.off.sc < 0 or src.off.sc + ln.c > sobj.size:
-                raise PathEnd("UB", "oob_memcpy_src")
-            if dst.off.sc < 0 or dst.off.sc + ln.c > st.mem[dst.obj].size:
-                raise PathEnd("UB", "oob_memcpy_dst")
-            # copy whole cells when fully inside, otherwise bytes
-            s0 = src.off.sc
-            moved = []
-            covered = [False] * ln.c
-            for coff, (csz, cv) in sobj.cells.items():
-                if coff >= s0 and coff + csz <= s0 + ln.c:
-                    moved.append((coff - s0, csz, cv))
-                    for k in range(coff - s0, coff - s0 + csz):
-                        covered[k] = True
-            bs = None
-            if not all(covered):
-                bs = self.read_bytes(st, sobj, s0, ln.c)
-            dobj = st.obj_w(dst.obj)
-            if dobj.const:
-                raise PathEnd("UB", "store_to_constant")
-            d0 = dst.off.sc
-            # clear destination range
-            for coff in list(dobj.cells.keys()):
-                csz, cv = dobj.cells[coff]
-                if coff + csz <= d0 or coff >= d0 + ln.c:
+            if dst.obj is None or (src is not None and src.obj is None):
+                # a null pointer with a possibly-zero length is fine; with non-zero length it is UB
+                if ln.c is not None:
+                    raise PathEnd("UB", "null_" + n1)
+            syms = [("len", ln)] + [("dst", dst.off)] + ([("src", src.off)] if src is not None else [])
+            if all(iv.c is not None for _, iv in syms):
+                self.mem_transfer(st, dst.obj, dst.off.sc, None if is_set else src.obj, None if is_set else src.off.sc,
+                                  ln.c, val if is_set else None)
+                return None
+            # enumerate the feasible (length, offsets) combinations; one successor state per combination
+            dsize = st.mem[dst.obj].size if dst.obj is not None else 0
+            ssize = st.mem[src.obj].size if (src is not None and src.obj is not None) else dsize
+            combos = [([], [])]
+            for nm, iv in syms:
+                if iv.c is not None:
+                    combos = [(vals + [iv.sc if nm != "len" else iv.c], conds) for vals, conds in combos]
                     continue
-                if coff >= d0 and coff + csz <= d0 + ln.c:
-                    del dobj.cells[coff]
-                else:
-                    cb = self.val_to_bytes(cv, csz)
-                    del dobj.cells[coff]
-                    for k in range(csz):
-                        pp = coff + k
-                        if pp < d0 or pp >= d0 + ln.c:
-                            dobj.cells[pp] = (1, cb[k])
-            if bs is not None:
-                for k in range(ln.c):
-                    if not covered[k]:
-                        dobj.cells[d0 + k] = (1, bs[k])
-            for (ro, csz, cv) in moved:
-                dobj.cells[d0 + ro] = (csz, cv)
-            return None
-        if n1 == "memset":
-            dst, val, ln = args[0], args[1], self.conc(args[2])
-            dst = Ptr(dst.obj, self.conc(dst.off))
-            if ln.c is None or dst.off.c is None:
-                raise IRUnsupported("memset with symbolic length/offset")
-            if ln.c == 0:
-                return None
-            if dst.obj is None:
-                raise PathEnd("UB", "null_memset")
-            for k in range(ln.c):
-                self.store_conc(st, dst.obj, dst.off.sc + k, IntTy(8), val)
+                hi = min(dsize, ssize) if nm == "len" else (dsize if nm == "dst" else ssize)
+                newc = []
+                for vals, conds in combos:
+                    for v in range(0, hi + 1):
+                        c = zb(self.dom.icmp("eq", iv, IV(iv.bits, c=v)))
+                        if self.feasible(st, z3.And(*(conds + [c]))) is not False:
+                            newc.append((vals + [v], conds + [c]))
+                    # anything outside [0, hi] is an out-of-bounds transfer
+                    oob = z3.And(*(conds + [zb(self.dom.icmp("ugt", iv, IV(iv.bits, c=hi)))]))
+                    if self.feasible(st, oob) is not False:
+                        self.paths.append(Path(st.pc + [oob], "UB", "oob_" + n1, None, list(st.notes), list(st.msgs)))
+                combos = newc
+                if len(combos) > 400:
+                    raise IRUnsupported(n1 + ": too many length/offset combinations")
+            if not combos:
+                raise PathEnd("INFEASIBLE")
+            states = []
+            for i, (vals, conds) in enumerate(combos):
+                tgt = st if i == len(combos) - 1 else st.clone()
+                tgt.pc.extend(conds)
+                states.append((tgt, vals))
+            for tgt, vals in states:
+                lnv = vals[0]
+                dv = vals[1]
+                sv = vals[2] if src is not None else None
+                try:
+                    if lnv > 0:
+                        if dst.obj is None or (src is not None and src.obj is None):
+                            raise PathEnd("UB", "null_" + n1)
+                        self.mem_transfer(tgt, dst.obj, dv, None if is_set else src.obj, sv, lnv, val if is_set else None)
+                    if tgt is not st:
+                        if ins.x.get("normal"):
+                            self.goto(tgt, ins.x["normal"], defer=True)
+                        work.append(tgt)
+                except PathEnd as pe:
+                    if tgt is st:
+                        raise
+                    if pe.kind != "INFEASIBLE":
+                        self.paths.append(Path(tgt.pc, pe.kind, pe.payload, tgt.mem, tgt.notes, tgt.msgs))
             return None
         if n1 == "fabs":
             return z3.fpAbs(args[0])
